@@ -54,7 +54,7 @@ def _states(ctx, rng):
         yield st
     for row in gen.pairwise(rng, gen.PAIRWISE_DOMAINS):
         yield row
-    for _ in range(2500 if quick else 1500000):
+    for _ in range(2500 if quick else 4500000):
         yield gen.random_state(rng)
 
 
@@ -86,6 +86,13 @@ def generate(ctx, rng):
         yield ("overlap", j), {"kind": "overlap", "start": gen.random_state(rng), "state": gen.random_state(rng),
                                "reply_delay": rng.choice([0.3, 0.5, 1.2]), "apply_at": rng.choice([0.05, 0.1, 0.25]),
                                "version": rng.choice([2, 3])}
+
+
+    # two tasks of the application call apply() on the same object, the settings change in between (the first exchange is still
+    # waiting for its reply)
+    for j in range(60 if ctx.tier == "quick" else 20000):
+        yield ("two-applies", j), {"kind": "overlap", "start": gen.random_state(rng), "state": gen.random_state(rng), "second": gen.random_state(rng),
+                                   "reply_delay": 0.0, "apply_at": rng.choice([0.0, 0.0, 0.0005]), "version": rng.choice([2, 3])}
 
 
 _SEEN = {}
@@ -202,6 +209,15 @@ def _overlap(ctx, case):
         if version == 3:
             await ac.authenticate(token, key)
         await ac.refresh()
+        if case.get("second"):
+            gen.apply_to_ac(ac, st)
+            n0 = len(model.controls)
+            t = asyncio.ensure_future(ac.apply())
+            await asyncio.sleep(case["apply_at"])
+            gen.apply_to_ac(ac, case["second"])
+            await ac.apply()
+            await t
+            return model.controls[n0:]
         slow["on"] = True
         t = asyncio.ensure_future(ac.refresh())
         await asyncio.sleep(case["apply_at"])
@@ -217,6 +233,15 @@ def _overlap(ctx, case):
     except Exception as e:  # noqa: BLE001
         ctx.count(k, kind="overlap-raised")
         ctx.violation(f"overlap-raises/{type(e).__name__}", f"{type(e).__name__}: {e}", case)
+        return
+    if case.get("second"):
+        ctx.count(k + (gen.state_key(case["second"]),), kind="apply-overlapping-apply")
+        dec = [acstate.decode_0x40(c) for c in controls]
+        def same(got, want):
+            return all(got[f] == want[f] for f in gen.FIELDS)
+        if len(dec) < 2 or not same(dec[0], st) or not same(dec[-1], case["second"]) or not all(same(d, st) or same(d, case["second"]) for d in dec):
+            ctx.violation("control-not-received", f"two overlapping apply() calls with different settings put {len(dec)} control command(s) on the wire; "
+                          f"first matches the first state: {bool(dec) and same(dec[0], st)}, last matches the second state: {bool(dec) and same(dec[-1], case['second'])}", case)
         return
     ctx.count(k, kind="apply-overlapping-refresh", sample={"version": version, "reply_delay": case["reply_delay"], "apply_at": case["apply_at"]})
     if len(controls) != 1:
